@@ -47,14 +47,66 @@ Proof.
   unfold run_from. cbn [fold_left]. f_equal. unfold step_tr. destruct (step s op). reflexivity.
 Qed.
 
-Section Invariant.
+Ltac destr_st s :=
+  let nw := fresh "nw" in let k := fresh "k" in let li := fresh "li" in let lo := fresh "lo" in
+  let pt := fresh "pt" in let cs := fresh "cs" in let sk := fresh "sk" in let q := fresh "q" in
+  destruct s as [nw k li lo pt cs sk q];
+  cbn [now kk last_in last_out ping_t cstate sock inq] in *.
+
+Ltac proj := cbn [now kk last_in last_out ping_t cstate sock inq fst snd] in *.
+
+Lemma read_phase_now s : now (fst (read_phase s)) = now s.
+Proof. destr_st s. unfold read_phase. proj. destruct q as [|[] r]; reflexivity. Qed.
+
+Lemma loop_misc_now s : now (fst (loop_misc s)) = now s.
+Proof.
+  destr_st s. unfold loop_misc, check_keepalive, close_with. proj.
+  repeat (case_if; proj; try reflexivity).
+Qed.
+
+Section Phases.
   Context {A O : Type}.
   Variable g : A -> op -> option A.
   Variable ostep : O -> event -> O.
   Variable I : st -> O -> A -> Prop.
-  Hypothesis Hstep : forall s o a op a',
-    I s o a -> g a op = Some a' ->
+  Definition obs (t : Z) (evs : list evk) (o : O) : O := fold_left ostep (stamp t evs) o.
+
+  Lemma obs_app t e1 e2 o : obs t (e1 ++ e2) o = obs t e2 (obs t e1 o).
+  Proof. unfold obs, stamp. rewrite map_app, fold_left_app. reflexivity. Qed.
+
+  Hypothesis H_tick : forall s o a dt a', I s o a -> g a (Tick dt) = Some a' ->
+    I (fst (step s (Tick dt))) (obs (now s + Z.max 0 dt) [Ticked (Z.max 0 dt)] o) a'.
+  Hypothesis H_app : forall s o a a', I s o a -> g a AppSend = Some a' ->
+    I s (obs (now s) (if sock s then [TxOther] else []) o) a'.
+  Hypothesis H_rx : forall s o a p a', I s o a -> g a (Rx p) = Some a' ->
+    I (fst (step s (Rx p))) (obs (now s) (if sock s then [Arr p] else []) o) a'.
+  Hypothesis H_dead : forall s o a a', I s o a -> g a Service = Some a' -> sock s = false ->
+    I s (obs (now s) [LoopRc RC_CONN_LOST] o) a'.
+  Hypothesis H_read : forall s o a, I s o a -> sock s = true ->
+    I (fst (read_phase s)) (obs (now s) (snd (read_phase s)) o) a.
+  Hypothesis H_misc : forall s o a a', I s o a -> g a Service = Some a' -> sock s = true ->
+    I (fst (loop_misc s)) (obs (now s) (snd (loop_misc s)) o) a'.
+
+  Lemma phase_step : forall s o a op a', I s o a -> g a op = Some a' ->
     I (fst (step s op)) (fold_left ostep (stamp (now (fst (step s op))) (snd (step s op))) o) a'.
+  Proof.
+    intros s o a op a' HI Hg. destruct op as [dt| | |p].
+    - pose proof (H_tick s o a dt a' HI Hg) as H. cbn [step fst snd now] in *. exact H.
+    - cbn [step]. unfold service.
+      destruct (sock s) eqn:Es; cbn [negb].
+      + pose proof (H_read s o a HI Es) as Hr. pose proof (read_phase_now s) as Hn.
+        destruct (read_phase s) as [s1 e1]. cbn [fst snd] in *.
+        destruct (sock s1) eqn:Es1; cbn [negb].
+        * pose proof (H_misc s1 _ a a' Hr Hg Es1) as Hm. pose proof (loop_misc_now s1) as Hn2.
+          destruct (loop_misc s1) as [s2 e2]. cbn [fst snd] in *.
+          rewrite Hn2, Hn. fold (obs (now s) (e1 ++ e2) o). rewrite obs_app. rewrite Hn in Hm. exact Hm.
+        * cbn [fst snd]. rewrite Hn. fold (obs (now s) (e1 ++ [LoopRc RC_CONN_LOST]) o). rewrite obs_app.
+          pose proof (H_dead s1 _ a a' Hr Hg Es1) as Hd. rewrite Hn in Hd. exact Hd.
+      + cbn [fst snd]. apply (H_dead s o a a' HI Hg Es).
+    - pose proof (H_app s o a a' HI Hg) as H. cbn [step]. destruct (sock s); exact H.
+    - pose proof (H_rx s o a p a' HI Hg) as H. cbn [step] in *.
+      destruct (sock s); cbn [fst snd now] in *; exact H.
+  Qed.
 
   Lemma run_from_inv : forall ops s tr o0 a,
     I s (fold_left ostep tr o0) a -> guarded g a ops = true ->
@@ -65,23 +117,19 @@ Section Invariant.
     - cbn [guarded] in Hg. destruct (g a op) as [a'|] eqn:Ega; [|discriminate].
       rewrite run_from_cons.
       apply (IH _ _ o0 a'); [|exact Hg].
-      rewrite fold_left_app. apply (Hstep s (fold_left ostep tr o0) a op a' HI Ega).
+      rewrite fold_left_app. apply (phase_step s (fold_left ostep tr o0) a op a' HI Ega).
   Qed.
-End Invariant.
+End Phases.
 
-(* case analysis on everything a step can branch on, then arithmetic *)
+Ltac unfold_misc :=
+  unfold loop_misc, check_keepalive, close_with, ka_due, ka_may_ping, ka_ping_expired, is_connected,
+    RC_KEEPALIVE, RC_CONN_LOST, RC_NO_CONN, RC_SUCCESS in *.
+
 Ltac branch :=
   repeat match goal with
   | |- context [if ?b then _ else _] => destruct b eqn:?
-  | |- context [match ?x with InConnack => _ | _ => _ end] => destruct x eqn:?
-  | |- context [match ?x with [] => _ | _ :: _ => _ end] => destruct x eqn:?
   | |- context [match ?x with CsConnecting => _ | _ => _ end] => destruct x eqn:?
-  | |- context [let (_, _) := ?x in _] => destruct x eqn:?
   end.
-
-Ltac unfold_step :=
-  unfold step, service, loop_misc, check_keepalive, read_one, close_with, ka_due, ka_may_ping,
-    ka_ping_expired, is_connected, RC_KEEPALIVE, RC_CONN_LOST, RC_NO_CONN, RC_SUCCESS in *.
 
 (* ------------------------------------------------------------------ C08.1 pings *)
 
@@ -89,36 +137,10 @@ Definition I_pings (K d : Z) (s : st) (ltx : Z) (acc : Z) : Prop :=
   kk s = K /\ 0 <= acc <= d /\ last_out s <= now s /\ ltx <= now s /\
   (sock s = true -> last_out s <= ltx /\ now s - last_out s < K + acc).
 
-Lemma I_pings_step K d : 0 < K -> forall s o a op a',
-  I_pings K d s o a -> sw_op d a op = Some a' ->
-  I_pings K d (fst (step s op)) (fold_left ltx_step (stamp (now (fst (step s op))) (snd (step s op))) o) a'.
-Proof.
-  intros HK s ltx a op a' (Hk & Ha & Hlo & Hlt & Hs) Hg.
-  destruct s as [nw k li lo pt cs sk q]. cbn [kk now last_out sock] in *. subst k.
-  destruct op as [dt| | |p]; cbn [sw_op] in Hg.
-  - destruct (a + Z.max 0 dt <=? d) eqn:E; [|discriminate]. inv Hg.
-    cbn [step fst snd now last_in last_out ping_t cstate sock inq kk stamp map fold_left ltx_step].
-    unfold I_pings; cbn [kk now last_out sock]. repeat split; try lia.
-    all: intros Hsk; specialize (Hs Hsk); lia.
-  - inv Hg. unfold_step.
-    cbn [now kk last_in last_out ping_t cstate sock inq].
-    destruct sk; cbn [negb andb].
-    2:{ cbn [fst snd now kk last_out sock stamp map fold_left ltx_step]. unfold I_pings; cbn [kk now last_out sock].
-        repeat split; try lia; intros; discriminate. }
-    specialize (Hs eq_refl).
-    branch; cbn [fst snd now kk last_in last_out ping_t cstate sock inq stamp map fold_left ltx_step app negb andb] in *;
-      try discriminate;
-      unfold I_pings; cbn [kk now last_out sock]; (repeat split; try lia; try (intros; discriminate); try (intros _; lia)).
-  - inv Hg. cbn [step sock]. destruct sk;
-      cbn [fst snd now kk last_out sock stamp map fold_left ltx_step];
-      unfold I_pings; cbn [kk now last_out sock]; repeat split; try lia; intros Hsk; try discriminate.
-    specialize (Hs eq_refl). lia.
-  - assert (a' = a) by (destruct p; cbn in Hg; congruence). subst a'.
-    cbn [step sock]. destruct sk;
-      cbn [fst snd now kk last_out sock stamp map fold_left ltx_step];
-      unfold I_pings; cbn [kk now last_out sock]; repeat split; try lia; intros Hsk; try discriminate.
-    specialize (Hs eq_refl). lia.
-Qed.
+Ltac fin_pings :=
+  unfold I_pings, obs; cbn [stamp map fold_left ltx_step fst snd now kk last_in last_out ping_t cstate sock inq] in *;
+  repeat split; try lia;
+  try (let H := fresh in intros H; try discriminate; lia).
 
 Lemma pings_strict : forall K d t0 ops, 0 < K -> 0 <= d ->
   serviced_within d ops = true ->
@@ -128,11 +150,26 @@ Proof.
   intros K d t0 ops HK Hd Hsw.
   unfold serviced_within in Hsw. rewrite sw_guarded in Hsw.
   destruct (run t0 K ops) as [s tr] eqn:Er. intros Hsk.
-  pose proof (run_from_inv (sw_op d) ltx_step (I_pings K d) (I_pings_step K d HK)
-                ops (init t0 K) [(t0, TxConnect)] t0 0) as H.
+  pose proof (run_from_inv (sw_op d) ltx_step (I_pings K d)) as H.
+  specialize (fun a b c d0 e f => H a b c d0 e f ops (init t0 K) [(t0, TxConnect)] t0 0).
   unfold run in Er. rewrite Er in H. cbn [fst snd] in H.
-  destruct H as (a' & Hk & Ha & Hlo & Hlt & Hs); [|exact Hsw|].
-  - unfold I_pings, init. cbn. repeat split; try lia.
+  destruct H as (a' & Hk & Ha & Hlo & Hlt & Hs); try exact Hsw.
+  - (* tick *) intros s0 o a dt a' (Hk & Ha & Hlo & Hlt & Hs) Hg. cbn [sw_op] in Hg.
+    destruct (a + Z.max 0 dt <=? d) eqn:E; [|discriminate]. inv Hg.
+    destr_st s0. cbn [step]. destruct sk; try specialize (Hs eq_refl); fin_pings.
+  - (* app *) intros s0 o a a' (Hk & Ha & Hlo & Hlt & Hs) Hg. inv Hg.
+    destr_st s0. destruct sk; try specialize (Hs eq_refl); fin_pings.
+  - (* rx *) intros s0 o a p a' (Hk & Ha & Hlo & Hlt & Hs) Hg. cbn [sw_op] in Hg. inv Hg.
+    destr_st s0. cbn [step]. proj. destruct sk; try specialize (Hs eq_refl); fin_pings.
+  - (* dead *) intros s0 o a a' (Hk & Ha & Hlo & Hlt & Hs) Hg Hsk0. inv Hg.
+    destr_st s0. subst sk. fin_pings.
+  - (* read *) intros s0 o a (Hk & Ha & Hlo & Hlt & Hs) Hsk0.
+    destr_st s0. subst sk. specialize (Hs eq_refl). unfold read_phase, read_one, close_with. proj.
+    destruct q as [|[] r]; fin_pings.
+  - (* misc *) intros s0 o a a' (Hk & Ha & Hlo & Hlt & Hs) Hg Hsk0. inv Hg.
+    destr_st s0. subst sk. specialize (Hs eq_refl). unfold_misc. proj.
+    branch; proj; cbn [app negb andb] in *; try discriminate; fin_pings.
+  - (* init *) unfold I_pings, init. cbn. repeat split; try lia.
   - unfold last_tx. specialize (Hs Hsk). lia.
 Qed.
 
@@ -143,4 +180,215 @@ Lemma pings : forall K d t0 ops, 0 < K -> 0 <= d ->
 Proof.
   intros K d t0 ops HK Hd Hsw. pose proof (pings_strict K d t0 ops HK Hd Hsw) as H.
   destruct (run t0 K ops) as [s tr]. intros Hs. specialize (H Hs). lia.
+Qed.
+
+(* ------------------------------------------------------------------ counting observers *)
+
+Definition cnt_step (f : evk -> bool) (n : nat) (e : event) : nat := if f (snd e) then S n else n.
+
+Lemma cnt_fold f : forall tr n, fold_left (cnt_step f) tr n = (n + count_k f tr)%nat.
+Proof.
+  induction tr as [|e r IH]; intros n; unfold count_k in *; cbn [fold_left filter length].
+  - lia.
+  - rewrite IH. unfold cnt_step. destruct (f (snd e)); cbn [length]; lia.
+Qed.
+
+Lemma count_k_fold f tr : count_k f tr = fold_left (cnt_step f) tr 0%nat.
+Proof. rewrite cnt_fold. reflexivity. Qed.
+
+Lemma count_k_mono f g tr : (forall k, f k = true -> g k = true) -> (count_k f tr <= count_k g tr)%nat.
+Proof.
+  intros H. unfold count_k. induction tr as [|e r IH]; cbn [filter length]; [lia|].
+  destruct (f (snd e)) eqn:Ef.
+  - rewrite (H _ Ef). cbn [length]. lia.
+  - destruct (g (snd e)); cbn [length]; lia.
+Qed.
+
+(* ------------------------------------------------------------------ C08.4 keepalive 0 *)
+
+Definition ka_event (k : evk) : bool := is_txping k || is_own_close k || is_cb_keepalive k.
+
+Definition I_zero (s : st) (n : nat) (a : unit) : Prop := kk s = 0 /\ ping_t s = 0 /\ n = 0%nat.
+
+(* comparisons between return-code literals *)
+Ltac zconst :=
+  unfold RC_KEEPALIVE, RC_CONN_LOST, RC_NO_CONN, RC_SUCCESS in *;
+  change (7 =? 16) with false in *; change (16 =? 16) with true in *;
+  change (7 =? 0) with false in *; change (4 =? 0) with false in *; change (0 =? 0) with true in *.
+
+Ltac fin_zero :=
+  unfold I_zero, obs; zconst;
+  cbn [stamp map fold_left]; unfold cnt_step, ka_event;
+  cbn [stamp map fold_left cnt_step ka_event is_txping is_own_close is_cb_keepalive orb
+       fst snd now kk last_in last_out ping_t cstate sock inq] in *;
+  zconst;
+  cbn [stamp map fold_left cnt_step ka_event is_txping is_own_close is_cb_keepalive orb
+       fst snd now kk last_in last_out ping_t cstate sock inq] in *;
+  repeat split; try lia; try reflexivity.
+
+Lemma zero_all : forall t0 ops, count_k ka_event (snd (run t0 0 ops)) = 0%nat.
+Proof.
+  intros t0 ops. rewrite count_k_fold.
+  pose proof (run_from_inv free_op (cnt_step ka_event) I_zero) as H.
+  specialize (fun a b c d0 e f => H a b c d0 e f ops (init t0 0) [(t0, TxConnect)] 0%nat tt).
+  unfold run. destruct H as (a' & Hk & Hp & Hn); try apply free_guarded; try exact Hn.
+  - intros s0 o a dt a' (Hk & Hp & Hn) _. destr_st s0. cbn [step]. fin_zero.
+  - intros s0 o a a' (Hk & Hp & Hn) _. destr_st s0. destruct sk; fin_zero.
+  - intros s0 o a p a' (Hk & Hp & Hn) _. destr_st s0. cbn [step]. proj. destruct sk; fin_zero.
+  - intros s0 o a a' (Hk & Hp & Hn) _ Hsk0. destr_st s0. fin_zero.
+  - intros s0 o a (Hk & Hp & Hn) Hsk0. destr_st s0. unfold read_phase, read_one, close_with. proj.
+    destruct q as [|[] r]; unfold RC_CONN_LOST, RC_KEEPALIVE; fin_zero.
+  - intros s0 o a a' (Hk & Hp & Hn) _ Hsk0. destr_st s0. subst. unfold_misc. proj.
+    cbn [Z.eqb Z.gtb Z.compare andb negb app]. fin_zero.
+  - unfold I_zero, init. cbn. auto.
+Qed.
+
+Lemma zero : forall t0 ops,
+  let tr := snd (run t0 0 ops) in
+  count_k is_txping tr = 0%nat /\ count_k is_own_close tr = 0%nat /\ count_k is_cb_keepalive tr = 0%nat.
+Proof.
+  intros t0 ops tr. pose proof (zero_all t0 ops) as H. fold tr in H.
+  pose proof (count_k_mono is_txping ka_event tr) as H1.
+  pose proof (count_k_mono is_own_close ka_event tr) as H2.
+  pose proof (count_k_mono is_cb_keepalive ka_event tr) as H3.
+  unfold ka_event in *.
+  repeat split.
+  - assert (count_k is_txping tr <= count_k ka_event tr)%nat by (apply H1; intros k E; rewrite E; reflexivity). unfold ka_event in *. lia.
+  - assert (count_k is_own_close tr <= count_k ka_event tr)%nat by (apply H2; intros k E; rewrite E; apply orb_true_iff; left; apply orb_true_r). unfold ka_event in *. lia.
+  - assert (count_k is_cb_keepalive tr <= count_k ka_event tr)%nat by (apply H3; intros k E; rewrite E; apply orb_true_r). unfold ka_event in *. lia.
+Qed.
+
+(* ------------------------------------------------------------------ C08.3 core: every keepalive close is justified *)
+
+Definition I_core (K : Z) (s : st) (m : jmon) (a : unit) : Prop :=
+  kk s = K /\ 0 < now s /\ jm_ok m = true /\ last_out s <= last_in s /\ last_in s <= now s /\ 0 <= ping_t s /\
+  (sock s = true ->
+     cstate s <> CsLost /\
+     (cstate s = CsConnecting -> ping_t s = 0 /\ jm_conn m = Some (last_out s)) /\
+     (cstate s = CsConnected -> ping_t s <> 0 -> jm_ping m = Some (ping_t s) /\ last_out s = ping_t s)).
+
+Ltac fin_core :=
+  unfold I_core, obs; zconst;
+  cbn [stamp map fold_left]; unfold jmon_step;
+  cbn [stamp map fold_left jm_conn jm_ping jm_ok fst snd now kk last_in last_out ping_t cstate sock inq] in *;
+  zconst;
+  cbn [stamp map fold_left jm_conn jm_ping jm_ok aged andb orb fst snd now kk last_in last_out ping_t cstate sock inq] in *;
+  repeat split; try lia; try congruence; try discriminate;
+  try (intros; repeat split; try lia; try congruence; try discriminate);
+  try (subst; cbn [andb]; apply orb_true_iff; right; lia);
+  try (subst; cbn [andb]; apply orb_true_iff; left; lia).
+
+Lemma core_justified : forall K t0 ops, 0 < K -> 0 < t0 ->
+  closes_justified K (snd (run t0 K ops)) = true.
+Proof.
+  intros K t0 ops HK Ht0. unfold closes_justified.
+  pose proof (run_from_inv free_op (jmon_step K) (I_core K)) as H.
+  specialize (fun a b c d0 e f => H a b c d0 e f ops (init t0 K) [(t0, TxConnect)] (mkjmon None None true) tt).
+  unfold run. destruct H as (a' & Hk & Hn & Hok & _); try apply free_guarded; try exact Hok.
+  - intros s0 [jc jp jok] a dt a' (Hk & Hn & Hok & Hio & Hin & Hp & Hs) _.
+    destr_st s0. cbn [step]. cbn [jm_ok jm_conn jm_ping] in *. fin_core; apply Hs; assumption.
+  - intros s0 [jc jp jok] a a' (Hk & Hn & Hok & Hio & Hin & Hp & Hs) _.
+    destr_st s0. cbn [jm_ok jm_conn jm_ping] in *. destruct sk; fin_core; apply Hs; assumption.
+  - intros s0 [jc jp jok] a p a' (Hk & Hn & Hok & Hio & Hin & Hp & Hs) _.
+    destr_st s0. cbn [step]. proj. cbn [jm_ok jm_conn jm_ping] in *. destruct sk; fin_core; apply Hs; assumption.
+  - intros s0 [jc jp jok] a a' (Hk & Hn & Hok & Hio & Hin & Hp & Hs) _ Hsk0.
+    destr_st s0. cbn [jm_ok jm_conn jm_ping] in *. subst sk. fin_core.
+  - intros s0 [jc jp jok] a (Hk & Hn & Hok & Hio & Hin & Hp & Hs) Hsk0.
+    destr_st s0. cbn [jm_ok jm_conn jm_ping] in *. subst sk. specialize (Hs eq_refl). destruct Hs as (Hl & Hc & Hg).
+    unfold read_phase, read_one, close_with. proj.
+    destruct cs; [destruct (Hc eq_refl) as (Hp0 & Hjc); subst | pose proof (Hg eq_refl) as Hg' | congruence];
+      destruct q as [|[] r]; fin_core; try (apply Hg'; assumption).
+  - intros s0 [jc jp jok] a a' (Hk & Hn & Hok & Hio & Hin & Hp & Hs) _ Hsk0.
+    destr_st s0. cbn [jm_ok jm_conn jm_ping] in *. subst sk. specialize (Hs eq_refl). destruct Hs as (Hl & Hc & Hg).
+    unfold_misc. proj.
+    destruct cs; [destruct (Hc eq_refl) as (Hp0 & Hjc); subst | pose proof (Hg eq_refl) as Hg' | congruence];
+      branch; proj; cbn [app negb andb] in *; try discriminate;
+      try (destruct (Hg' ltac:(lia)) as (Hjp & Hlo); subst jp lo);
+      fin_core; try (apply Hg'; assumption).
+  - unfold I_core, init. cbn. repeat split; try lia; try congruence; try discriminate.
+Qed.
+
+(* ------------------------------------------------------------------ the three outcomes of loop_misc, K > 0 *)
+
+Definition pinged (s : st) : st := mkst (now s) (kk s) (now s) (now s) (now s) (cstate s) (sock s) (inq s).
+Definition closed (s : st) : st := mkst (now s) (kk s) (last_in s) (last_out s) (ping_t s) CsLost false [].
+
+Lemma loop_misc_cases s : sock s = true -> 0 < kk s ->
+  (loop_misc s = (s, [LoopRc RC_SUCCESS]) /\
+     now s - last_out s < kk s /\ now s - last_in s < kk s /\ (0 < ping_t s -> now s - ping_t s < kk s))
+  \/ (loop_misc s = (pinged s, [TxPing; LoopRc RC_SUCCESS]) /\
+     cstate s = CsConnected /\ ping_t s = 0 /\ (kk s <= now s - last_out s \/ kk s <= now s - last_in s))
+  \/ (loop_misc s = (closed s, [Closed RC_KEEPALIVE; CbDisconnect RC_KEEPALIVE; LoopRc RC_CONN_LOST]) /\
+     (((kk s <= now s - last_out s \/ kk s <= now s - last_in s) /\ (cstate s <> CsConnected \/ ping_t s <> 0))
+      \/ (0 < ping_t s /\ kk s <= now s - ping_t s))).
+Proof.
+  intros Hs HK. destr_st s. subst sk. unfold pinged, closed. unfold_misc. proj.
+  destruct (k =? 0) eqn:Ek; [lia|].
+  cbn [negb andb].
+  destruct ((nw - lo >=? k) || (nw - li >=? k)) eqn:Edue.
+  - destruct cs; cbn [andb].
+    + right; right. proj. cbn [negb app]. split; [reflexivity|]. left. split; [lia|left; congruence].
+    + destruct (pt =? 0) eqn:Ept; proj; cbn [negb].
+      * right; left. assert (((nw >? 0) && (nw - nw >=? k)) = false) as -> by lia.
+        cbn [app]. repeat split; try lia.
+      * right; right. cbn [app]. split; [reflexivity|]. left. split; lia.
+    + right; right. proj. cbn [negb app]. split; [reflexivity|]. left. split; [lia|left; congruence].
+  - proj. cbn [negb].
+    destruct ((pt >? 0) && (nw - pt >=? k)) eqn:Eexp.
+    + right; right. cbn [app]. split; [reflexivity|]. right. lia.
+    + left. cbn [app]. repeat split; try lia.
+Qed.
+
+Lemma read_phase_cases s :
+  (inq s = [] /\ read_phase s = (s, []))
+  \/ (exists r, inq s = InEof :: r /\ read_phase s = (closed s, [Rd InEof; Closed RC_CONN_LOST; CbDisconnect RC_CONN_LOST]))
+  \/ (exists r, inq s = InPingresp :: r /\
+        read_phase s = (mkst (now s) (kk s) (now s) (last_out s) 0 (cstate s) (sock s) r, [Rd InPingresp]))
+  \/ (exists r, inq s = InConnack :: r /\
+        read_phase s = (mkst (now s) (kk s) (now s) (last_out s) (ping_t s) CsConnected (sock s) r, [Rd InConnack]))
+  \/ (exists r, inq s = InOther :: r /\
+        read_phase s = (mkst (now s) (kk s) (now s) (last_out s) (ping_t s) (cstate s) (sock s) r, [Rd InOther])).
+Proof.
+  destr_st s. unfold read_phase, read_one, close_with, closed. proj.
+  destruct q as [|[] r]; eauto 8.
+Qed.
+
+(* ------------------------------------------------------------------ basic state facts, shared by the invariants below *)
+
+Definition Ibase (K : Z) (s : st) : Prop :=
+  kk s = K /\ 0 < now s /\ last_out s <= last_in s /\ last_in s <= now s /\ 0 <= ping_t s /\
+  (ping_t s <> 0 -> last_out s = ping_t s) /\
+  (sock s = true -> cstate s <> CsLost /\ (ping_t s <> 0 -> cstate s = CsConnected)) /\
+  (sock s = false -> cstate s = CsLost).
+
+Lemma Ibase_init K t0 : 0 < t0 -> Ibase K (init t0 K).
+Proof. intros H. unfold Ibase, init. proj. repeat split; try lia; try congruence; try discriminate. Qed.
+
+Lemma Ibase_tick K s dt : Ibase K s -> Ibase K (fst (step s (Tick dt))).
+Proof.
+  intros (Hk & Hn & Hio & Hin & Hp & Hlo & Hs & Hf). destr_st s. cbn [step]. unfold Ibase. proj.
+  repeat split; try lia; try (apply Hs; assumption); try (apply Hf; assumption); try (intros; apply Hlo; assumption).
+Qed.
+
+Lemma Ibase_rx K s p : Ibase K s -> Ibase K (fst (step s (Rx p))).
+Proof.
+  intros H. destr_st s. cbn [step]. proj. destruct sk; exact H.
+Qed.
+
+Lemma Ibase_read K s : Ibase K s -> sock s = true -> Ibase K (fst (read_phase s)).
+Proof.
+  intros (Hk & Hn & Hio & Hin & Hp & Hlo & Hs & Hf) Hsk. specialize (Hs Hsk). destruct Hs as (Hl & Hc).
+  destruct (read_phase_cases s) as [(_ & E)|[(r & _ & E)|[(r & _ & E)|[(r & _ & E)|(r & _ & E)]]]];
+    rewrite E; unfold Ibase, closed; proj; rewrite ?Hsk;
+    repeat split; try lia; try congruence; try discriminate; try (intros; assumption);
+    try (intros; apply Hc; assumption);
+    try (intros Hne; specialize (Hlo Hne); lia).
+Qed.
+
+Lemma Ibase_misc K s : 0 < K -> Ibase K s -> sock s = true -> Ibase K (fst (loop_misc s)).
+Proof.
+  intros HK (Hk & Hn & Hio & Hin & Hp & Hlo & Hs & Hf) Hsk. specialize (Hs Hsk). destruct Hs as (Hl & Hc).
+  destruct (loop_misc_cases s Hsk ltac:(lia)) as [(E & _)|[(E & Hcc & Hp0 & _)|(E & _)]];
+    rewrite E; unfold Ibase, pinged, closed; proj; rewrite ?Hsk;
+    repeat split; try lia; try congruence; try discriminate; try (intros; assumption); try exact Hc.
 Qed.
